@@ -244,6 +244,100 @@ def recent_laws(corpus):
     return fails
 
 
+# -----------------------------------------------------------------------------------------------
+# histories: the mailbox changes between searches (messages go, messages arrive and take over file numbers, flags move); after
+# every step the keys whose facts FETCH shows (flags, size, INTERNALDATE, UID, number) are searched and judged on fresh facts
+HIST_OPS = ["del-last", "del-first", "app-mar", "app-jan", "flag-last", "seen-all"]
+
+
+def hist_programs(facts):
+    P = [("ON", "7-Mar-2003"), ("BEFORE", "7-Mar-2003"), ("SINCE", "8-Mar-2003"), ("ON", "13-Jan-2024"), ("SINCE", "12-Jan-2024"), ("BEFORE", "12-Jan-2024"),
+         ("not", ("ON", "13-Jan-2024")), ("or", ("ON", "7-Mar-2003"), ("ON", "11-Jan-2024")),
+         ("FLAGGED",), ("UNSEEN",), ("SEEN",), ("DELETED",), ("KEYWORD", "kwone"), ("and", [("SEEN",), ("SINCE", "11-Jan-2024")])]
+    if facts:
+        sz = facts[-1]["size"]
+        P += [("LARGER", sz - 1), ("SMALLER", sz + 1), ("and", [("LARGER", sz - 1), ("SMALLER", sz + 1)]), ("UID", [(facts[-1]["uid"], "*")]), ("SEQ", ["*"])]
+    return P
+
+
+def hist_facts(s):
+    r, resps = s.do("FETCH 1:* (UID FLAGS RFC822.SIZE INTERNALDATE)")
+    facts = []
+    for x in resps:
+        if x.kind == "untagged" and x.typ == "FETCH":
+            it = fetch_items(x)
+            if "UID" in it and "INTERNALDATE" in it:
+                facts.append({"seq": x.num, "uid": int(it["UID"]), "flags": {str(f) for f in (it["FLAGS"] or [])} - {"\\Recent"}, "size": int(it["RFC822.SIZE"]),
+                              "idate": RS.pdate(bytes(it["INTERNALDATE"]).decode().strip().split(" ")[0])})
+    return sorted(facts, key=lambda f: f["seq"])
+
+
+def work_hist(unit):
+    corpus, hists = unit
+    tmpl = template(corpus)
+    fails = []
+    n = 0
+    outcomes = set()
+    for hist in hists:
+        w = World(tmpl)
+        try:
+            w.start()
+            s = w.connect("A")
+            s.do("SELECT INBOX")
+            k = 0
+            for step, op in enumerate(("look",) + tuple(hist)):
+                if op == "del-last":
+                    s.do("STORE * +FLAGS.SILENT (\\Deleted)")
+                    s.do("EXPUNGE")
+                elif op == "del-first":
+                    s.do("STORE 1 +FLAGS.SILENT (\\Deleted)")
+                    s.do("EXPUNGE")
+                elif op in ("app-mar", "app-jan"):
+                    k += 1
+                    when = '"07-Mar-2003 10:00:00 +0000"' if op == "app-mar" else '"13-Jan-2024 10:00:00 +0000"'
+                    s.do(f"APPEND INBOX (kwone) {when} ".encode() + imap_literal(msgs.make(f"h{k}", body="h" * (40 * k) + "\r\n")))
+                    s.do("NOOP")
+                elif op == "flag-last":
+                    s.do("STORE * +FLAGS.SILENT (\\Flagged)")
+                elif op == "seen-all":
+                    s.do("STORE 1:* +FLAGS.SILENT (\\Seen)")
+                facts = hist_facts(s)
+                ctx = {"n": len(facts), "uids": [f["uid"] for f in facts]}
+                for p in hist_programs(facts):
+                    text = RS.render(p)
+                    want = [f for f in facts if RS.ev(p, f, ctx)]
+                    for uidf in (False, True):
+                        r, resps = s.do(("UID SEARCH " if uidf else "SEARCH ") + text, horizon=10)
+                        n += 1
+                        got = None
+                        for x in resps:
+                            if x.kind == "untagged" and x.typ == "SEARCH":
+                                got = [int(v) for v in x.data]
+                        exp = [f["uid"] if uidf else f["seq"] for f in want]
+                        if not facts and r is not None and r.typ == "OK" and not got:
+                            continue
+                        outcomes.add((text, tuple(exp)))
+                        if r is None or r.typ != "OK" or got is None or sorted(got) != exp:
+                            fails.append(Failure(PROP, "C14.result-after-history", {"keys": sorted({k_ for k_ in _ops(p)}), "uid": uidf, "last_op": op, "steps": step},
+                                                 {"driver": "c14h", "corpus": corpus, "history": list(hist)}, exp, got if r is not None and r.typ == "OK" else str(r),
+                                                 [f"history: {list(hist)}", f"program: {text}", f"facts: {[(f['seq'], f['uid'], str(f['idate']), sorted(f['flags']), f['size']) for f in facts]}"]))
+                            break
+                    else:
+                        continue
+                    break
+        finally:
+            w.close()
+    return fails, n, len(outcomes)
+
+
+def hist_units(tier):
+    depth = 3 if tier == "quick" else 4
+    hs = [h for d in range(1, depth + 1) for h in itertools.product(HIST_OPS, repeat=d)]
+    # (shorter histories are prefixes of longer ones and every step is judged: only the longest are run)
+    hs = [h for h in hs if len(h) == depth]
+    return [("c1", hs[i : i + 12]) for i in range(0, len(hs), 12)], len(hs)
+
+
 def run(tier, seed, jobs) -> Result:
     res = Result(level="exploration")
     units = []
@@ -267,11 +361,20 @@ def run(tier, seed, jobs) -> Result:
         res.failures.extend(f)
         ev += n
         nt += k
+    hunits, nh = hist_units(tier)
+    hev = hnt = 0
+    for f, n, k in pmap(work_hist, seeded_order(hunits, seed), jobs):
+        res.failures.extend(f)
+        hev += n
+        hnt += k
     res.coverage = {
-        "evaluations": ev, "distinct_nontrivial": nt,
+        "histories": {"count": nh, "depth": 3 if tier == "quick" else 4, "alphabet": HIST_OPS, "searches": hev, "distinct_program_result_pairs_in_a_unit_summed": hnt,
+                      "rule": "every sequence of that length over the alphabet; after every step ~19 programs over the FETCH-visible keys x {SEARCH, UID SEARCH} "
+                              "judged by the independent evaluator on facts fetched after the step"},
+        "evaluations": ev + hev, "distinct_nontrivial": nt,
         "rule": "every program k, NOT k, OR k k', (k k') over the atom list (thorough: + three 3-level shapes over every 5th atom), x 3 corpora x {SEARCH, UID SEARCH}; "
                 "non-trivial = matches some but not all messages",
-        "programs": total, "exhaustive": ev == 2 * total,
+        "programs": total, "exhaustive": ev == 2 * total and hev > 0,
         "samples": ["OR SUBJECT \"report\" LARGER 300", "NOT (SEEN SENTSINCE 11-Jan-2024)", "UID 2:* BODY \"swim\""],
     }
     res.assumptions = ["5-message corpora (one with a UID gap); needles are plain ASCII substrings; TEXT/BODY are case-insensitive substring matches on the decoded text",
@@ -281,6 +384,12 @@ def run(tier, seed, jobs) -> Result:
 
 
 def replay(rec):
+    if rec["replay"].get("driver") == "c14h":
+        return work_hist((rec["replay"]["corpus"], [tuple(rec["replay"]["history"])]))[0]
+    return _replay_prog(rec)
+
+
+def _replay_prog(rec):
     rp = rec["replay"]
     if rp["driver"] == "c14-laws":
         return recent_laws(rp["corpus"])
